@@ -311,3 +311,302 @@ Proof.
   rewrite mc_scan_close by (apply last_key_char; assumption).
   cbn [app cut_byte N.eqb Pos.eqb]. reflexivity.
 Qed.
+
+(* ==================================================================================== *)
+(* @pm                                                                                   *)
+(* ==================================================================================== *)
+Lemma lower_length s : length (lower_ascii s) = length s.
+Proof. apply map_length. Qed.
+
+Lemma map_eq_app_split {A B} (f : A -> B) s a b :
+  map f s = a ++ b ->
+  s = firstn (length a) s ++ skipn (length a) s /\ map f (firstn (length a) s) = a.
+Proof.
+  intros H. split; [symmetry; apply firstn_skipn|].
+  rewrite <- firstn_map, H. rewrite firstn_app, Nat.sub_diag, firstn_all. cbn. apply app_nil_r.
+Qed.
+
+Lemma prefix_ci_iff p s :
+  prefix_ci p s = true <-> exists m b, s = m ++ b /\ lower_ascii m = lower_ascii p.
+Proof.
+  unfold prefix_ci. rewrite is_prefix_iff. split.
+  - intros [b' H]. unfold lower_ascii in H at 1. apply map_eq_app_split in H as [H1 H2].
+    eexists _, _. split; [exact H1 | exact H2].
+  - intros [m [b [-> H]]]. exists (lower_ascii b). unfold lower_ascii in *. rewrite map_app, H. reflexivity.
+Qed.
+
+Lemma prefix_ci_firstn p s :
+  prefix_ci p s = true -> lower_ascii (firstn (length p) s) = lower_ascii p.
+Proof.
+  intros H. apply prefix_ci_iff in H as [m [b [-> H]]].
+  assert (length m = length p) by (rewrite <- (lower_length m), H; apply lower_length).
+  rewrite <- H0, firstn_app, Nat.sub_diag, firstn_all. cbn. rewrite app_nil_r. exact H.
+Qed.
+
+Definition la_step (s : bytes) (best : option nat) (p : bytes) : option nat :=
+  if prefix_ci p s then
+    match best with
+    | Some l => if (l <? length p)%nat then Some (length p) else best
+    | None => Some (length p)
+    end
+  else best.
+
+Lemma longest_at_unfold ps s : longest_at ps s = fold_left (la_step s) ps None.
+Proof. reflexivity. Qed.
+
+Lemma la_fold_none s ps : forall best,
+  fold_left (la_step s) ps best = None <->
+  best = None /\ forall p, In p ps -> prefix_ci p s = false.
+Proof.
+  induction ps as [|p ps IH]; intros best; cbn [fold_left].
+  - split; [intros ->; split; [reflexivity | intros ? []] | intros [-> _]; reflexivity].
+  - rewrite IH. unfold la_step at 2. split.
+    + intros [H1 H2]. destruct (prefix_ci p s) eqn:E.
+      * destruct best as [l|]; [destruct (l <? length p)%nat|]; discriminate.
+      * split; [exact H1|]. intros q [<-|Hq]; [exact E | apply H2; exact Hq].
+    + intros [-> H]. rewrite (H p (or_introl eq_refl)). split; [reflexivity|].
+      intros q Hq. apply H. right; exact Hq.
+Qed.
+
+Lemma la_fold_some s ps : forall best l,
+  fold_left (la_step s) ps best = Some l ->
+  (best = Some l \/ exists p, In p ps /\ prefix_ci p s = true /\ length p = l)
+  /\ (forall p, In p ps -> prefix_ci p s = true -> (length p <= l)%nat)
+  /\ (forall b, best = Some b -> (b <= l)%nat).
+Proof.
+  induction ps as [|p ps IH]; intros best l; cbn [fold_left].
+  - intros ->. split; [left; reflexivity|]. split; [intros ? []|]. intros b Hb; inversion Hb; lia.
+  - intros H. apply IH in H as [H1 [H2 H3]]. unfold la_step in H1, H3.
+    destruct (prefix_ci p s) eqn:E.
+    + destruct best as [b0|].
+      * destruct (b0 <? length p)%nat eqn:Eb.
+        -- apply Nat.ltb_lt in Eb. specialize (H3 _ eq_refl). split; [|split].
+           ++ destruct H1 as [H1|[q [Hq1 Hq2]]].
+              ** inversion H1; subst. right. exists p. split; [left; reflexivity|]. split; [exact E | reflexivity].
+              ** right. exists q. split; [right; exact Hq1 | exact Hq2].
+           ++ intros q [<-|Hq] Hp; [exact H3 | apply H2; assumption].
+           ++ intros b Hb; inversion Hb; subst. lia.
+        -- apply Nat.ltb_ge in Eb. specialize (H3 _ eq_refl). split; [|split].
+           ++ destruct H1 as [H1|[q [Hq1 Hq2]]]; [left; exact H1|].
+              right. exists q. split; [right; exact Hq1 | exact Hq2].
+           ++ intros q [<-|Hq] Hp; [lia | apply H2; assumption].
+           ++ intros b Hb; inversion Hb; subst. exact H3.
+      * specialize (H3 _ eq_refl). split; [|split].
+        -- destruct H1 as [H1|[q [Hq1 Hq2]]].
+           ++ inversion H1; subst. right. exists p. split; [left; reflexivity|]. split; [exact E | reflexivity].
+           ++ right. exists q. split; [right; exact Hq1 | exact Hq2].
+        -- intros q [<-|Hq] Hp; [exact H3 | apply H2; assumption].
+        -- intros b Hb; discriminate.
+    + split; [|split].
+      * destruct H1 as [H1|[q [Hq1 Hq2]]]; [left; exact H1|].
+        right. exists q. split; [right; exact Hq1 | exact Hq2].
+      * intros q [<-|Hq] Hp; [congruence | apply H2; assumption].
+      * exact H3.
+Qed.
+
+(* the longest listed phrase matching at the head of s *)
+Lemma longest_at_some ps s l :
+  longest_at ps s = Some l ->
+  (exists p, In p ps /\ prefix_ci p s = true /\ length p = l)
+  /\ (forall p, In p ps -> prefix_ci p s = true -> (length p <= l)%nat).
+Proof.
+  rewrite longest_at_unfold. intros H. apply la_fold_some in H as [[H|H] [H2 _]]; [discriminate|].
+  split; assumption.
+Qed.
+
+Lemma longest_at_none ps s :
+  longest_at ps s = None <-> forall p, In p ps -> prefix_ci p s = false.
+Proof.
+  rewrite longest_at_unfold, la_fold_none. split; [intros [_ H]; exact H | intros H; split; [reflexivity | exact H]].
+Qed.
+
+(* every reported match is an occurrence of a listed phrase (up to ASCII case) ... *)
+Lemma ac_matches_sound ps s m :
+  In m (ac_matches ps s) ->
+  exists a b p, s = a ++ m ++ b /\ In p ps /\ lower_ascii m = lower_ascii p.
+Proof.
+  induction s as [|c s IH]; cbn [ac_matches]; intros H; apply in_app_or in H as [H|H].
+  - destruct (longest_at ps []) as [l|] eqn:E; [|destruct H].
+    destruct H as [<-|[]]. apply longest_at_some in E as [[p [Hp [Hpre Hl]]] _].
+    exists [], (skipn l []), p. split; [|split; [exact Hp|]].
+    + cbn [app]. symmetry. apply firstn_skipn.
+    + subst l. apply prefix_ci_firstn. exact Hpre.
+  - destruct H.
+  - destruct (longest_at ps (c :: s)) as [l|] eqn:E; [|destruct H].
+    destruct H as [<-|[]]. apply longest_at_some in E as [[p [Hp [Hpre Hl]]] _].
+    exists [], (skipn l (c :: s)), p. split; [|split; [exact Hp|]].
+    + cbn [app]. symmetry. apply firstn_skipn.
+    + subst l. apply prefix_ci_firstn. exact Hpre.
+  - apply IH in H as [a [b [p [Hs [Hp Hm]]]]].
+    exists (c :: a), b, p. split; [cbn; rewrite Hs; reflexivity | split; assumption].
+Qed.
+
+(* ... and an occurrence of any listed phrase makes the match list non-empty *)
+Lemma ac_matches_complete ps s :
+  Spec.pm ps s -> ac_matches ps s <> [].
+Proof.
+  intros [p [Hp [a [m [b [Hs Hm]]]]]]. subst s.
+  induction a as [|x a IH].
+  - cbn [app].
+    assert (Hpre : prefix_ci p (m ++ b) = true) by (apply prefix_ci_iff; exists m, b; split; [reflexivity | exact Hm]).
+    destruct (longest_at ps (m ++ b)) as [l|] eqn:E.
+    + destruct (m ++ b); cbn [ac_matches]; rewrite E; discriminate.
+    + rewrite longest_at_none in E. rewrite (E p Hp) in Hpre. discriminate.
+  - cbn [app ac_matches]. intros H. apply app_eq_nil in H as [_ H]. apply IH. exact H.
+Qed.
+
+Lemma ac_matches_nonempty_iff ps s : ac_matches ps s <> [] <-> Spec.pm ps s.
+Proof.
+  split; [|apply ac_matches_complete].
+  intros H. destruct (ac_matches ps s) as [|m r] eqn:E; [contradiction|].
+  assert (Hin : In m (ac_matches ps s)) by (rewrite E; left; reflexivity).
+  apply ac_matches_sound in Hin as [a [b [p [Hs [Hp Hm]]]]].
+  exists p. split; [exact Hp|]. exists a, m, b. split; assumption.
+Qed.
+
+(* minPatternLen never exceeds the length of a listed phrase *)
+Lemma min_pattern_len_from_le ps : forall mn,
+  (forall p, In p ps -> (min_pattern_len_from ps mn <= length p)%nat)
+  /\ ((0 < mn)%nat -> (min_pattern_len_from ps mn <= mn)%nat).
+Proof.
+  induction ps as [|p ps IH]; intros mn; cbn [min_pattern_len_from].
+  - split; [intros ? [] | intros; lia].
+  - destruct p as [|c p'].
+    + split; intros; lia.
+    + set (p := c :: p') in *.
+      assert (Hpos : (0 < length p)%nat) by (subst p; cbn; lia).
+      destruct (Nat.eqb mn 0 || (length p <? mn)%nat) eqn:E.
+      * destruct (IH (length p)) as [I1 I2]. specialize (I2 Hpos). split.
+        -- intros q [<-|Hq]; [exact I2 | apply I1; exact Hq].
+        -- intros Hmn. apply orb_true_iff in E as [E|E].
+           ++ apply Nat.eqb_eq in E. lia.
+           ++ apply Nat.ltb_lt in E. lia.
+      * apply orb_false_iff in E as [E1 E2]. apply Nat.eqb_neq in E1. apply Nat.ltb_ge in E2.
+        destruct (IH mn) as [I1 I2]. assert (Hmn : (0 < mn)%nat) by lia. specialize (I2 Hmn). split.
+        -- intros q [<-|Hq]; [lia | apply I1; exact Hq].
+        -- intros _. exact I2.
+Qed.
+
+Lemma occurs_ci_length p s : Spec.occurs_ci p s -> (length p <= length s)%nat.
+Proof.
+  intros [a [m [b [-> H]]]].
+  assert (length m = length p) by (rewrite <- (lower_length m), H; apply lower_length).
+  rewrite !app_length. lia.
+Qed.
+
+(* the length pre-check is sound: a value shorter than minPatternLen contains no phrase *)
+Lemma pm_minlen_sound ps s :
+  (length s < min_pattern_len ps)%nat -> ~ Spec.pm ps s.
+Proof.
+  intros Hlt [p [Hp Hocc]]. apply occurs_ci_length in Hocc.
+  pose proof (proj1 (min_pattern_len_from_le ps 0) p Hp). unfold min_pattern_len in Hlt. lia.
+Qed.
+
+(* @pm on a phrase list decides exactly "some listed phrase occurs, ASCII-case-insensitively" *)
+Lemma pm_eval_exact ps capturing v :
+  fst (pm_eval ps capturing v) = true <-> Spec.pm ps v.
+Proof.
+  unfold pm_eval. destruct (length v <? min_pattern_len ps)%nat eqn:E.
+  - apply Nat.ltb_lt in E. cbn [fst]. split; [discriminate|].
+    intros H. exfalso. exact (pm_minlen_sound ps v E H).
+  - cbn [fst]. rewrite <- ac_matches_nonempty_iff.
+    destruct (ac_matches ps v); split; try discriminate; try reflexivity; intros H; [contradiction|discriminate].
+Qed.
+
+(* the captured texts: at most ten, each an occurrence of a listed phrase in the value *)
+Lemma pm_captures_sound ps v :
+  (length (snd (pm_eval ps true v)) <= 10)%nat /\
+  forall m, In m (snd (pm_eval ps true v)) ->
+    exists a b p, v = a ++ m ++ b /\ In p ps /\ lower_ascii m = lower_ascii p.
+Proof.
+  unfold pm_eval. destruct (length v <? min_pattern_len ps)%nat; cbn [snd].
+  - split; [cbn; lia | intros ? []].
+  - split; [apply firstn_le_length|].
+    intros m Hm. apply ac_matches_sound. revert Hm. generalize (ac_matches ps v). intros l.
+    generalize 10%nat. intros n. revert l. induction n; intros l H; [destruct H|].
+    destruct l; [destruct H|]. destruct H as [<-|H]; [left; reflexivity | right; apply IHn; exact H].
+Qed.
+
+(* nothing is captured, and nothing stored, without `capture` *)
+Lemma pm_no_capture ps v : snd (pm_eval ps false v) = [].
+Proof. unfold pm_eval. destruct (length v <? min_pattern_len ps)%nat; reflexivity. Qed.
+
+(* ---- from the argument text to the phrase list ---- *)
+Lemma ascii_lower_space c : (ascii_lower c =? 32) = (c =? 32).
+Proof.
+  unfold ascii_lower. destruct ((65 <=? c) && (c <=? 90)) eqn:E; [|reflexivity].
+  apply andb_true_iff in E as [E1 E2]. apply N.leb_le in E1, E2.
+  destruct (c =? 32) eqn:E3; [apply N.eqb_eq in E3; lia|]. apply N.eqb_neq. lia.
+Qed.
+
+Lemma split_byte_nonnil sep s : split_byte sep s <> [].
+Proof.
+  destruct s as [|c r]; cbn [split_byte]; [discriminate|].
+  destruct (c =? sep); [discriminate|]. destruct (split_byte sep r); discriminate.
+Qed.
+
+Lemma split_byte_lower s :
+  split_byte 32 (lower_ascii s) = map lower_ascii (split_byte 32 s).
+Proof.
+  induction s as [|c r IH]; [reflexivity|].
+  cbn [lower_ascii map split_byte]. fold (lower_ascii r). rewrite ascii_lower_space, IH.
+  destruct (c =? 32); [reflexivity|].
+  destruct (split_byte 32 r) eqn:E; [exfalso; exact (split_byte_nonnil _ _ E)|]. reflexivity.
+Qed.
+
+Lemma ascii_lower_idem c : ascii_lower (ascii_lower c) = ascii_lower c.
+Proof.
+  unfold ascii_lower. destruct ((65 <=? c) && (c <=? 90)) eqn:E; [|rewrite E; reflexivity].
+  apply andb_true_iff in E as [E1 E2]. apply N.leb_le in E1, E2.
+  destruct ((65 <=? c + 32) && (c + 32 <=? 90)) eqn:E3; [|reflexivity].
+  apply andb_true_iff in E3 as [E4 E5]. apply N.leb_le in E4, E5. lia.
+Qed.
+
+Lemma lower_ascii_idem s : lower_ascii (lower_ascii s) = lower_ascii s.
+Proof. unfold lower_ascii. rewrite map_map. apply map_ext. apply ascii_lower_idem. Qed.
+
+Lemma occurs_ci_lower p s : Spec.occurs_ci (lower_ascii p) s <-> Spec.occurs_ci p s.
+Proof. unfold Spec.occurs_ci. setoid_rewrite lower_ascii_idem. reflexivity. Qed.
+
+Lemma lower_nonempty p : nonempty (lower_ascii p) = nonempty p.
+Proof. destruct p; reflexivity. Qed.
+
+(* @pm with a pure-ASCII argument: some non-empty space-separated phrase of the argument
+   occurs in the value, ASCII-case-insensitively *)
+Lemma pm_arg_exact tbl arg capturing v :
+  is_ascii arg = true ->
+  (fst (pm_eval (pm_phrases tbl arg) capturing v) = true
+   <-> exists p, In p (split_byte 32 arg) /\ p <> [] /\ Spec.occurs_ci p v).
+Proof.
+  intros Ha. rewrite pm_eval_exact. unfold pm_phrases, go_to_lower, Spec.pm. rewrite Ha, split_byte_lower.
+  unfold drop_empty. split.
+  - intros [p [Hp Hocc]]. apply filter_In in Hp as [Hp Hne]. apply in_map_iff in Hp as [q [<- Hq]].
+    exists q. split; [exact Hq|]. split; [destruct q; [discriminate | discriminate]|].
+    apply occurs_ci_lower. exact Hocc.
+  - intros [q [Hq [Hne Hocc]]]. exists (lower_ascii q). split.
+    + apply filter_In. split; [apply in_map; exact Hq|]. rewrite lower_nonempty. destruct q; [contradiction | reflexivity].
+    + apply occurs_ci_lower. exact Hocc.
+Qed.
+
+(* @pmFromDataset: some non-empty entry occurs *)
+Lemma pmd_exact ds capturing v :
+  fst (pm_eval (pmd_phrases ds) capturing v) = true
+  <-> exists p, In p ds /\ p <> [] /\ Spec.occurs_ci p v.
+Proof.
+  rewrite pm_eval_exact. unfold pmd_phrases, drop_empty, Spec.pm. split.
+  - intros [p [Hp Hocc]]. apply filter_In in Hp as [Hp Hne]. exists p. repeat split; try assumption.
+    destruct p; discriminate.
+  - intros [p [Hp [Hne Hocc]]]. exists p. split; [|exact Hocc]. apply filter_In. split; [exact Hp|].
+    destruct p; [contradiction | reflexivity].
+Qed.
+
+(* a non-ASCII phrase goes through strings.ToLower, which rewrites invalid UTF-8 to U+FFFD:
+   "@pm \xff" does not find the byte \xff *)
+Lemma pm_nonascii_phrase_refuted :
+  exists arg v, fst (pm_eval (pm_phrases [] arg) false v) = false
+                /\ (exists p, In p (split_byte 32 arg) /\ p <> [] /\ Spec.occurs_ci p v).
+Proof.
+  exists [255], [255]. split; [vm_compute; reflexivity|].
+  exists [255]. split; [left; reflexivity|]. split; [discriminate|].
+  exists [], [255], []. split; reflexivity.
+Qed.
